@@ -109,7 +109,19 @@ class NoLossOracle(HOracle):
                 data = qsim.read_noatime(p)
                 self.unlinks_checked += 1
                 self.res.counters.inc("channel_unlinks_checked")
-                left = [a for off, t, a in parse_chanfile(data, d) if t != b"D"]
+                chan = "l" if d == "local" else "r"
+                byoff = {r.off: r for r in ((m.records or {}).get(chan, []) if m is not None else [])}
+                left = []
+                for off, t, a in parse_chanfile(data, d):
+                    if t == b"D":
+                        continue
+                    r = byoff.get(off)
+                    if r is not None and r.final():
+                        # reported K or D but the one-byte mark could not be written (injected write/open
+                        # fault: "trouble marking ... will be delivered twice"): the recipient is accounted for
+                        self.res.counters.inc("unmarked_but_finished_at_unlink")
+                        continue
+                    left.append(a)
                 if left:
                     self.violate("C03/channel-file-removed-with-open-recipients/%s" % d,
                                  "%s/%d unlinked while %r still not done" % (d, num, left[:3]))
@@ -168,7 +180,7 @@ class NoLossOracle(HOracle):
 
     def at_end(self, sim):
         # bounded progress: the scenario answered everything and stepped the clock; the queue must be empty
-        left = sim.scan()
+        left = {n: d for n, d in sim.scan().items() if "info" in d or "todo" in d or not d <= {"mess", "intd"}}
         if self.h.finished and not self.h.stuck:
             if left:
                 self.violate("C03/queue-not-drained", "history finished but the queue still holds %r" % dict(list(left.items())[:4]))
